@@ -29,7 +29,9 @@ type c05Gen struct {
 	b       strings.Builder
 }
 
-var c05Consts = []string{"0", "1", "\"\"", "\"x\"", "nil", bn.KwTrue, bn.KwFalse, "[]", "({})", "0.5", "(0 - 0)"}
+var c05Consts = []string{"0", "1", "\"\"", "\"x\"", "nil", bn.KwTrue, bn.KwFalse, "[]", "({})", "0.5", "(0 - 0)",
+	// every other value is truthy: built-in function values, strings that spell zero or false, NaN, infinities, containers of falsy values
+	bn.BLen, bn.BClock, bn.BInput, "\"0\"", "\"0.0\"", "\"০\"", "\" \"", "\"nil\"", "(-0)", "0.0", "০", "((2 ** 1024) - (2 ** 1024))", "(2 ** 1024)", "[0]", "[nil]", "({a: 0})", "((1 << 62) | 1)", "(1 << 64)", "0.000001"}
 
 func (g *c05Gen) tag() string {
 	g.nTag++
@@ -329,7 +331,8 @@ func TestC05(t *testing.T) {
 				return
 			}
 			for _, kw := range []string{bn.KwBreak + ";", bn.KwContinue + ";", bn.KwReturn + ";", bn.KwReturn + " 1;"} {
-				for _, wrap := range []string{"%s", "{ %s }", bn.KwIf + " (1) %s", bn.KwIf + " (0) 1; " + bn.KwElse + " %s", "{ { %s } }", bn.KwIf + " (1) { " + bn.KwPrint + " \"in\"; %s }"} {
+				for _, wrap := range []string{"%s", "{ %s }", bn.KwIf + " (1) %s", bn.KwIf + " (0) 1; " + bn.KwElse + " %s", "{ { %s } }", bn.KwIf + " (1) { " + bn.KwPrint + " \"in\"; %s }",
+				bn.KwFun + " sg() { " + bn.KwPrint + " \"in-sg\"; %s " + bn.KwPrint + " \"in-sg-after\"; }\nsg();", bn.KwFun + " sg() { %s }\n" + bn.KwWhile + " (" + bn.KwTrue + ") { sg(); " + bn.KwPrint + " \"iter\"; " + bn.KwBreak + "; }"} {
 					for _, pre := range []string{"", bn.KwPrint + " \"a\";\n", bn.KwPrint + " \"a\";\n\n" + bn.KwVar + " x = 1;\n"} {
 						src := pre + fmt.Sprintf(wrap, kw) + "\n" + bn.KwPrint + " \"after\";\n"
 						c.c05Program(s, "stray-signals", src, true)
